@@ -19,7 +19,8 @@ Record verdict := {
   v_sleep_match : bool;     (* is_sleeping() = the controller's sleep state, after init and after every op *)
   v_sleep_delay : bool;     (* every sleep-in / sleep-out is followed by >= 120 ms of delay inside the same call *)
   v_scroll : bool;          (* scroll set-up / offset commands exactly as specified *)
-  v_sleep_spacing : bool    (* the controller never saw two sleep-in/out commands < 120 ms apart *)
+  v_sleep_spacing : bool;   (* the controller never saw two sleep-in/out commands < 120 ms apart *)
+  v_picture : bool          (* final content of every cell of the panel window = last specified write (small panels) *)
 }.
 
 
@@ -29,6 +30,10 @@ Definition wr_inside (p : panel) (w : wr) : bool :=
   | WRect x0 y0 x1 y1 _ =>
       (p_ox p <=? x0) && (x1 <? p_ox p + p_w p) && (p_oy p <=? y0) && (y1 <? p_oy p + p_h p) && (x0 <=? x1) && (y0 <=? y1)
   end.
+
+Definition panel_cells (p : panel) : list (Z * Z) :=
+  flat_map (fun j => map (fun i => (p_ox p + Z.of_nat i, p_oy p + Z.of_nat j)) (seq 0 (Z.to_nat (p_w p))))
+           (seq 0 (Z.to_nat (p_h p))).
 
 Definition is_fill (op : pop) : bool :=
   match op with PFillContig _ _ | PFillContigGen _ _ | PFillSolid _ _ | PClear _ => true | _ => false end.
@@ -113,7 +118,7 @@ Definition walk_op (enc : Z -> list Z) (p : panel) (opt : opts) (s : wstate) (x 
 Definition bad_verdict : verdict :=
   {| v_results_ok := false; v_framing := false; v_no_anomaly := false; v_writes := false; v_confined := false;
      v_obs := false; v_madctl := false; v_one_window := false; v_nondraw_clean := false;
-     v_sleep_match := false; v_sleep_delay := false; v_scroll := false; v_sleep_spacing := false |}.
+     v_sleep_match := false; v_sleep_delay := false; v_scroll := false; v_sleep_spacing := false; v_picture := false |}.
 
 Definition judge (pc : pcase) (impl : pout) : verdict :=
   let '(r0, ev0, ob0, outs) := impl in
@@ -140,7 +145,15 @@ Definition judge (pc : pcase) (impl : pout) : verdict :=
          v_confined := forallb (wr_inside p) ws;
          v_obs := ws_obs s; v_madctl := ws_mad s; v_one_window := ws_onew s; v_nondraw_clean := ws_nd s;
          v_sleep_match := ws_slm s; v_sleep_delay := ws_sld s; v_scroll := ws_scr s;
-         v_sleep_spacing := negb (existsb (fun a => match a with SleepSpacing => true | _ => false end) (k_flags (ws_ctl s))) |}
+         v_sleep_spacing := negb (existsb (fun a => match a with SleepSpacing => true | _ => false end) (k_flags (ws_ctl s)));
+         v_picture :=
+           if p_w p * p_h p <=? 4096 then
+             forallb (fun c => match mem_rev (k_wrev (ws_ctl s)) (fst c) (snd c), mem_rev (ws_exp_rev s) (fst c) (snd c) with
+                               | Some a, Some b => zlist_eqb a b
+                               | None, None => true
+                               | _, _ => false
+                               end) (panel_cells p)
+           else true |}
   end.
 
 Definition all_good (v : verdict) : bool :=
